@@ -80,6 +80,11 @@ class Match(Generic[T]):
     """
     The parent match if this is a nested match.
     """
+    variable_set_by_resolution: bool = field(init=False, default=False)
+    """
+    Whether the variable was created or handed in when the match was resolved (and not given by the user): a pattern
+    object that is used in a second pattern is resolved again there.
+    """
     is_selected: bool = field(default=False, kw_only=True)
     """
     Whether the variable should be selected in the result.
@@ -117,6 +122,7 @@ class Match(Generic[T]):
         :return:
         """
         self._update_fields(variable, parent)
+        self.conditions = []
         for attr_name, attr_assigned_value in self.kwargs.items():
             attr_assignment = AttributeAssignment(
                 attr_name, self.variable, attr_assigned_value, self.type_
@@ -148,8 +154,10 @@ class Match(Generic[T]):
 
         if variable is not None:
             self.variable = variable
+            self.variable_set_by_resolution = True
         elif self.variable is None:
             self.variable = let(self.type_, self.domain)
+            self.variable_set_by_resolution = True
 
         self.parent = parent
 
@@ -296,8 +304,9 @@ class AttributeAssignment:
         """
         :return: True if the value is an unresolved Match instance, else False.
         """
-        return (
-            isinstance(self.assigned_value, Match) and not self.assigned_value.variable
+        return isinstance(self.assigned_value, Match) and (
+            not self.assigned_value.variable
+            or self.assigned_value.variable_set_by_resolution
         )
 
     @cached_property
